@@ -36,7 +36,12 @@ func main() {
 	cgm := flag.String("cg", "vta", "call graph mode: vta|cha")
 	replay := flag.String("replay", "", "replay file written by a previous run")
 	list := flag.Bool("list", false, "list properties")
+	genm := flag.String("genmanifest", "", "write MANIFEST.json to this path and exit")
 	flag.Parse()
+	if *genm != "" {
+		genManifest(*genm)
+		return
+	}
 	if *list {
 		var ids []string
 		for id := range registry {
